@@ -329,7 +329,7 @@ func drawCase(t *rapid.T) *Case {
 
 func TestRandom(t *testing.T) {
 	ev.Rule(rule)
-	ev.Rapid(t, "c01-random", 500, 24000, func(rt *rapid.T) {
+	ev.Rapid(t, "c01-random", 2000, 24000, func(rt *rapid.T) {
 		checkMWU.Run(rt, drawCase(rt))
 	})
 }
